@@ -521,3 +521,32 @@ UNITS.append(Unit('rdb.read_blocktables', ('CdnsBlockRead::read_blocktables', No
                   args=['&obj', '&dec'], props=['C08', 'C01', 'C03'], timeout=1800, post='  if (g_exc != 0) { CANARY("decoder exception reachable"); }',
                   note='tables map with any number of entries in any order (unknown, negative, repeated keys), definite or indefinite: consumed exactly; each known key '
                        'reads one array into its table; every other value is skipped as one item'))
+
+# ---------------------------------------------------------------- read_generic_aec
+IT = '$this->m_aec_read'
+AEC_GH = [('_Bool', 'END0', IT + ' == 0'),
+          ('unsigned char', 'TY0', '(%s ? (unsigned char)%s->first.ae_type : (unsigned char)0)' % (IT, IT)),
+          ('unsigned int', 'AX0', '(%s ? %s->first.ae_address_index : 0u)' % (IT, IT)),
+          ('unsigned long', 'CN0', '(%s ? %s->second : 0UL)' % (IT, IT)),
+          ('_Bool', 'CH0', '(%s ? %s->first.ae_code.has : (_Bool)0)' % (IT, IT)), ('unsigned char', 'CV0', '(%s ? %s->first.ae_code.val : (unsigned char)0)' % (IT, IT)),
+          ('_Bool', 'FH0', '(%s ? %s->first.ae_transport_flags.has : (_Bool)0)' % (IT, IT)), ('unsigned char', 'FV0', '(%s ? (unsigned char)%s->first.ae_transport_flags.val : (unsigned char)0)' % (IT, IT))]
+AEC_C = '''
+__CPROVER_requires(__CPROVER_w_ok($this, sizeof(*$this)) && __CPROVER_w_ok($1, 1) && g_exc == 0)
+__CPROVER_requires(''' + IT + ''' == 0 || ''' + IT + ''' == &umap_AddressEventCount_u64__cur)
+__CPROVER_assigns(*$1, ''' + IT + ''', umap_AddressEventCount_u64__cur, bt_StringItem__cur, g_exc)
+__CPROVER_ensures(g_exc == 0 || g_exc == EXC_runtime_error)
+__CPROVER_ensures(g_exc == 0 ==> ((*$1 != 0) == (@END0 != 0)))
+__CPROVER_ensures((g_exc == 0 && !*$1) ==> ((unsigned char)$ret.ae_type == @TY0 && $ret.ae_count == @CN0))
+__CPROVER_ensures((g_exc == 0 && !*$1) ==> ((($ret.ae_code.has != 0) == (@CH0 != 0)) && (!@CH0 || $ret.ae_code.val == @CV0)))
+__CPROVER_ensures((g_exc == 0 && !*$1) ==> ((($ret.ae_transport_flags.has != 0) == (@FH0 != 0)) && (!@FH0 || (unsigned char)$ret.ae_transport_flags.val == @FV0)))
+__CPROVER_ensures((g_exc == 0 && !*$1 && (unsigned long)@AX0 == $this->base.m_ip_address.wi) ==> ($ret.ip_address.id == $this->base.m_ip_address.wv.data.id && $ret.ip_address.len == $this->base.m_ip_address.wv.data.len))
+__CPROVER_ensures((g_exc == 0 && !*$1) ==> (unsigned long)@AX0 < $this->base.m_ip_address.n)
+__CPROVER_ensures((g_exc != 0 || *$1) ==> ''' + IT + ''' == (@END0 ? (struct pair_AddressEventCount_u64 *)0 : &umap_AddressEventCount_u64__cur))
+'''
+UNITS.append(Unit('rdb.read_generic_aec', ('CdnsBlockRead::read_generic_aec', None), contract=AEC_C, prelude=P, extern_records=R.EXT,
+                  stubs=RG_STUBS + ['umap_[A-Za-z0-9_]+__(next|begin|index|find)'], gen_stubs=GETTER_STUBS, arrays_uf=False, auto_inline=AUTO, ghost=AEC_GH,
+                  setup='  static struct CdnsBlockRead obj; _Bool a_end;\n  { struct pair_AddressEventCount_u64 fresh; umap_AddressEventCount_u64__cur = fresh; }\n  obj.m_aec_read = nondet_bool() ? (struct pair_AddressEventCount_u64 *)0 : &umap_AddressEventCount_u64__cur;   /* (assigned, not assumed: DESIGN T3) */\n', args=['&obj', '&a_end'],
+                  props=['C01', 'C03'], timeout=600,
+                  post='  if (g_exc != 0) { CANARY("out-of-range index reachable"); }\n  if (g_exc == 0 && !a_end) { CANARY("record returned reachable"); }',
+                  note='address event counts are handed out one map entry at a time until end(); type, code, transport flags and count of the presented record are those of '
+                       'the entry, the address is resolved through the bounds-checked accessor; the iterator advances only after a successful resolution'))
